@@ -819,6 +819,7 @@ class AttachScopesMapper(LokiIdentityMapper):
         return map_fn(new_expr, *args, **kwargs)
 
     map_deferred_type_symbol = map_variable_symbol
+    map_derived_type_symbol = map_variable_symbol
 
     def map_procedure_symbol(self, expr, *args, **kwargs):
         if expr.type and expr.type.is_intrinsic:
